@@ -283,7 +283,8 @@ def shard(ctx):
         ctx.count(f'seed_runs:{s}', len(cases))
     ctx.note('hash_seeds', seeds)
     nsample = 0
-    for i, c in enumerate(cases):
+    for i in sorted(range(len(cases)), key=lambda j: (len(cases[j]['text']) // 500, j)):
+        c = cases[i]
         by_seed = {s: res[s][i] for s in seeds}
         nontrivial = c['nvars'] >= 2 or any(s == 'Z' or s > 20 for s in c['steps'])
         ctx.case(c['text'], nontrivial)
